@@ -67,6 +67,11 @@ func init() {
 			if su.Field(i).Name() == "NegotiatedProtocol" {
 				v.Parts[i] = strV(app("negProto", SStr, c.Args[0].T))
 			}
+			if su.Field(i).Name() == "HandshakeComplete" {
+				// a function of the connection object (a completed handshake stays completed)
+				x.Reg.DeclareFun("hsComplete", []string{SInt}, SBool)
+				v.Parts[i] = bval(app("hsComplete", SBool, c.Args[0].T))
+			}
 		}
 		return one(st, v)
 	})
